@@ -18,7 +18,7 @@ runner = impl_thr.run_scenario
 def scenarios(rng, n, tier):
     for _ in range(n):
         opts = {"calls": [1, 2, 3], "p_single": 1.0, "p_skip": 0.25, "p_nodelay": 0.0, "p_stop": 0.1,
-                "p_limit": 0.15, "max_jobs": 2, "p_force": 0.15, "p_start": 0.6}
+                "p_limit": 0.15, "max_jobs": 2, "p_maxexec": 0.1, "p_force": 0.15, "p_start": 0.6}
         yield scen.gen_life(rng, opts)
 
 
@@ -142,6 +142,8 @@ def specs(r, calls=(1, 2, 3)):  # noqa: F811
         return _seq["specs"](r, calls)
     out = r["obs"][0]
     qs = []
+    if out.get("uncontrollable"):
+        return qs
     if out.get("deadlock") or out.get("error"):
         qs.append(("spec eq 0 1", {"what": "concurrent readers: deadlock or a thread died", "detail": out.get("deadlock") or out.get("error")}))
         return qs
